@@ -272,11 +272,19 @@ QReleaseViol(ev) ==
               LET k == Cardinality(RelOf(ev, q)) nh == NonHeld(ev, q)
               IN k <= Len(nh) /\ RelOf(ev, q) = {nh[j] : j \in 1..k})
   \cup Chk("C05_HeldNotReleased", \A i \in Range(ev.released) : i \notin ev.held)
+  \* "in the order they were queued, skipping held ones": what a release pass leaves in a queue is what was there
+  \* minus what it released, in the same order - a held task that was passed over keeps its place, so that it is
+  \* not overtaken later by tasks queued after it
+  \cup Chk("C05_OrderKeptAcrossRelease",
+           \A q \in DOMAIN ev.limits :
+              ev.queues_after[q] = SelectSeq(ev.queues_before[q], LAMBDA i : i \notin RelOf(ev, q)))
 QReleaseCov(ev) ==
      Cov("C05_LimitRespected", \E q \in DOMAIN ev.limits : ev.limits[q] > 0 /\ RelOf(ev, q) # {})
   \cup Cov("C05_LimitBinding", \E q \in DOMAIN ev.limits : ev.limits[q] > 0
                                    /\ Len(NonHeld(ev, q)) > Cardinality(RelOf(ev, q)))
   \cup Cov("C05_FifoSkipHeld", \E q \in DOMAIN ev.limits : Len(ev.queues_before[q]) >= 2 /\ RelOf(ev, q) # {})
+  \cup Cov("C05_OrderKeptAcrossRelease", \E q \in DOMAIN ev.limits : RelOf(ev, q) # {} /\ \E j \in DOMAIN ev.queues_before[q] :
+                                             ev.queues_before[q][j] \in ev.held /\ Len(ev.queues_after[q]) >= 2)
   \cup Cov("C05_HeldSkipped", \E q \in DOMAIN ev.limits : \E j \in DOMAIN ev.queues_before[q] : ev.queues_before[q][j] \in ev.held)
 
 \* rh_compute: TaskPool.compute_runahead returned
